@@ -402,6 +402,140 @@ def build():
     return rows, sorted(set(unparsed))
 
 
+# ---- root completeness ------------------------------------------------------------------------------------------------
+#
+# root_required : list (string * string)   (function, root) - every table that holds heap values and must be visited by the
+#     root-set functions: the `'v`-typed fields of `Module` (except the `heap` handle) and of `Evaluator` (as in trace_table), and
+#     `heap.<field>` for every field of `OwnedHeap` (heap_type.rs) whose type mentions `Value` or a type that has a Trace impl
+#     (e.g. `str_interner: RefCell<StringValueInterner>`).
+# root_calls : list (string * string * bool)   (function, root, unconditional) - the `.trace*(tracer)` calls of `Module::trace` /
+#     `Evaluator::trace` in source order; the root is the field the receiver resolves to (through `let` / `if let` / `for` bindings
+#     and same-file accessor methods; `self.heap().trace_xxx(tracer)` is resolved through the bodies of `Heap::trace_xxx` to the
+#     `self.0.<field>` they reach); unconditional = no `return` / `break` / `continue` / `?` / panic occurs textually before the call
+#     in the function body AND every enclosing block header (`if let Some(x) = <root>`, `for f in <root>`) is a test of this very root.
+
+_EXIT = re.compile(r"\breturn\b|\bbreak\b|\bcontinue\b|\?\s*[;.)]|\bpanic!|\bunreachable!|\bunimplemented!|\btodo!")
+
+
+def heap_fields_of(method, heap_methods, depth=3, seen=None):
+    seen = seen if seen is not None else set()
+    out = set()
+    for b in heap_methods.get(method, []):
+        out |= set(re.findall(r"\bself\s*\.\s*0\s*\.\s*([A-Za-z_][A-Za-z0-9_]*)\b(?!\s*\()", b))
+        if depth > 0:
+            for name in set(re.findall(r"\bself\s*\.\s*([A-Za-z_][A-Za-z0-9_]*)\s*\(", b)):
+                if name not in seen:
+                    seen.add(name)
+                    out |= heap_fields_of(name, heap_methods, depth - 1, seen)
+    return out
+
+
+def root_calls_of(body, methods, heap_methods):
+    """body = `{ ... }` of the trace function -> [(root, unconditional)] in source order"""
+    calls = []
+    binds = {}          # local name -> set of fields
+    headers = []        # one set of fields per enclosing block
+    state = {"exit": False}
+
+    def refs(text):
+        fs = set(fields_mentioned(text, methods))
+        for nm, f2 in binds.items():
+            if re.search(r"(?<![.\w])%s\b" % re.escape(nm), text):
+                fs |= f2
+        return fs
+
+    def bind(pat, rhs):
+        fs = refs(rhs)
+        if fs:
+            for nm in re.findall(r"[A-Za-z_][A-Za-z0-9_]*", pat):
+                if nm not in _KW and not nm[0].isupper():
+                    binds.setdefault(nm, set()).update(fs)
+
+    def process(seg):
+        lm = re.search(r"\blet\s+(.*?)=(?!=)(.*)$", seg, re.S)
+        fm = re.search(r"\bfor\s+(.*?)\bin\b(.*)$", seg, re.S)
+        if lm:
+            bind(lm.group(1), lm.group(2))
+        elif fm:
+            bind(fm.group(1), fm.group(2))
+        for m in re.finditer(r"\.\s*(trace[A-Za-z0-9_]*)\s*\(\s*tracer\s*\)", seg):
+            recv = seg[:m.start()]
+            k = max(recv.rfind("="), recv.rfind(","))
+            recv = recv[k + 1:]
+            fs = refs(recv)
+            roots = set()
+            if m.group(1) != "trace" and "heap" in fs:
+                roots = {"heap." + f for f in heap_fields_of(m.group(1), heap_methods)}
+            else:
+                roots = {f for f in fs}
+            for root in sorted(roots):
+                base = root.split(".")[0]
+                guard_ok = all(base in h for h in headers)
+                calls.append((root, guard_ok and not state["exit"]))
+        if _EXIT.search(seg):
+            state["exit"] = True
+
+    inner = body[1:-1]
+    seg = ""
+    for c in inner:
+        if c == "{":
+            process(seg)
+            headers.append(refs(seg))
+            seg = ""
+        elif c == "}":
+            process(seg)
+            if headers:
+                headers.pop()
+            seg = ""
+        elif c == ";":
+            process(seg)
+            seg = ""
+        else:
+            seg += c
+    process(seg)
+    return calls
+
+
+def build_roots():
+    """-> (required [(fn, root)], calls [(fn, root, unconditional)])"""
+    rows, _ = table()
+    traced_types = {n.split(":")[-1] for n, _, _ in rows if "::" not in n.split(":")[-1]}
+    required, calls = [], []
+    heap_rel = "starlark/src/values/layout/heap/heap_type.rs"
+    try:
+        heap_text = strip_comments(open(os.path.join(REPO, heap_rel), encoding="utf-8").read())
+    except OSError:
+        heap_text = ""
+    heap_methods = method_bodies(heap_text)
+    oh = find_type(heap_text, "OwnedHeap")
+    heap_fields = []
+    if oh not in (None, "unparsed"):
+        for f, ty, _ in oh[2]:
+            ty2 = drop_generic_app(ty, r"\bFrozen[A-Za-z]*\b")
+            if re.search(r"(?<![A-Za-z_])Value\b", ty2) or any(re.search(r"\b%s\b" % re.escape(t), ty2) for t in traced_types):
+                heap_fields.append(f)
+    for rel, tname, where in (("starlark/src/eval/runtime/evaluator.rs", "Evaluator", r"fn\s+trace\s*\(\s*&mut\s+self\s*,\s*tracer\s*:\s*&Tracer<'v>\s*\)\s*\{"),
+                              ("starlark/src/environment/modules.rs", "Module", r"pub\(crate\)\s+fn\s+trace\s*\(\s*&self\s*,\s*tracer\s*:\s*&Tracer<'v>\s*\)\s*\{")):
+        fn = "%s::trace" % tname
+        try:
+            text = strip_comments(open(os.path.join(REPO, rel), encoding="utf-8").read())
+        except OSError:
+            continue
+        t = find_type(text, tname)
+        fm = list(re.finditer(where, text))
+        if t in (None, "unparsed") or len(fm) != 1:
+            continue
+        bi = fm[0].end() - 1
+        body = text[bi:match_close(text, bi, "{", "}") + 1]
+        for f, ty, _ in t[2]:
+            if re.search(r"'v\b", ty) and "PhantomData" not in ty and not (tname == "Module" and f == "heap"):
+                required.append((fn, f))
+        if tname == "Module":
+            required += [(fn, "heap." + f) for f in heap_fields]
+        calls += [(fn, root, u) for root, u in root_calls_of(body, method_bodies(text), heap_methods)]
+    return sorted(set(required)), calls
+
+
 _CACHE = {}
 
 
@@ -423,6 +557,18 @@ def register(item, z, coq_list, coq_string, num, src):
         _, un = table()
         return coq_list([cs(u) for u in un])
 
+    def conv_required(m):
+        req, _ = build_roots()
+        return coq_list(["(%s, %s)" % (cs(f), cs(r)) for f, r in req])
+
+    def conv_calls(m):
+        _, calls = build_roots()
+        return coq_list(["(%s, %s, %s)" % (cs(f), cs(r), "true" if u else "false") for f, r, u in calls])
+
+    item("TraceC", "root_required", "starlark/src/environment/modules.rs", r"pub\(crate\) fn trace\(&self, tracer: &Tracer<'v>\) \{",
+         conv_required, coq_type="list (string * string)")
+    item("TraceC", "root_calls", "starlark/src/environment/modules.rs", r"pub\(crate\) fn trace\(&self, tracer: &Tracer<'v>\) \{",
+         conv_calls, coq_type="list (string * string * bool)")
     anchor = r"pub unsafe trait Trace<'v> \{"
     item("TraceC", "trace_table", "starlark/src/values/trace.rs", anchor, conv_table, coq_type="list (string * list string * list string)")
     item("TraceC", "trace_unparsed", "starlark/src/values/trace.rs", anchor, conv_unparsed, coq_type="list string")
@@ -434,3 +580,6 @@ if __name__ == "__main__":
         flag = "" if set(d) <= set(v) else "   <-- NOT VISITED: %s" % sorted(set(d) - set(v))
         print("%-70s declared=%s visited=%s%s" % (n, d, v, flag))
     print("unparsed:", un)
+    req, calls = build_roots()
+    print("root_required:", req)
+    print("root_calls:", calls)
